@@ -304,6 +304,55 @@ func init() {
 		return nil
 	})
 
+	// ---- lazyregexp: the pattern text comes from the tree being checked ----
+	lrx := "(*golang.org/x/mod/internal/lazyregexp.Regexp)."
+	pat := func(in *Interp, p Value) string {
+		st := (*p.(Ptr)).(Struct)
+		s, ok := st[0].(Str)
+		if !ok || !s.IsConcrete() {
+			panic(unsupported("lazyregexp with non-constant pattern"))
+		}
+		return s.Concrete()
+	}
+	reg("golang.org/x/mod/internal/lazyregexp.New", func(in *Interp, c *frame, fn *ssa.Function, a []Value) Value {
+		cell := new(Value)
+		*cell = zero(mustDeref(fn.Signature.Results().At(0).Type()))
+		(*cell).(Struct)[0] = a[0]
+		return Ptr(cell)
+	})
+	reg(lrx+"MatchString", func(in *Interp, c *frame, fn *ssa.Function, a []Value) Value {
+		return in.regexMatch(pat(in, a[0]), a[1].(Str))
+	})
+	strSlice := func(ss []string) Value {
+		if ss == nil {
+			return Slice{}
+		}
+		arr := make([]Value, len(ss))
+		for i, s := range ss {
+			arr[i] = mkStr(s)
+		}
+		return Slice{A: arr, Len: len(arr), Cap: len(arr), nonNil: true}
+	}
+	concreteArg := func(v Value, what string) string {
+		s := v.(Str)
+		if !s.IsConcrete() {
+			panic(unsupported(what + " on a symbolic string"))
+		}
+		return s.Concrete()
+	}
+	reg(lrx+"FindStringSubmatch", func(in *Interp, c *frame, fn *ssa.Function, a []Value) Value {
+		return strSlice(compileRE(pat(in, a[0])).re.FindStringSubmatch(concreteArg(a[1], "regexp FindStringSubmatch")))
+	})
+	reg(lrx+"FindString", func(in *Interp, c *frame, fn *ssa.Function, a []Value) Value {
+		return mkStr(compileRE(pat(in, a[0])).re.FindString(concreteArg(a[1], "regexp FindString")))
+	})
+	reg(lrx+"ReplaceAllString", func(in *Interp, c *frame, fn *ssa.Function, a []Value) Value {
+		return mkStr(compileRE(pat(in, a[0])).re.ReplaceAllString(concreteArg(a[1], "regexp ReplaceAllString"), concreteArg(a[2], "regexp ReplaceAllString")))
+	})
+	reg(lrx+"FindAllString", func(in *Interp, c *frame, fn *ssa.Function, a []Value) Value {
+		return strSlice(compileRE(pat(in, a[0])).re.FindAllString(concreteArg(a[1], "regexp FindAllString"), argInt(a[2])))
+	})
+
 	// unsafe helpers used by strings/bytes for zero-copy conversions
 	reg("unsafe.String", func(in *Interp, c *frame, fn *ssa.Function, a []Value) Value {
 		panic(unsupported("unsafe.String"))
